@@ -485,6 +485,32 @@ def r6_counter_walk(ctx):
     cfg, ex = Cfg(f), Exprs(f)
     START, CLOCK = ("param", 2), ("param", 3)
     be = cfg.back_edges()
+    if len(be) == 0:
+        # the walk as an iterator chain: `.step_by(k)` over a window of the history
+        steps = []
+        for b in sorted(cfg.reach):
+            t = f["blocks"][b]["term"]
+            if t["k"] == "call" and (t["callee"].get("key") or "").endswith("Iterator::step_by"):
+                steps.append((b, t))
+        if len(steps) == 1:
+            b, t = steps[0]
+            recv, k = ex.operand(t["args"][0]), ex.operand(t["args"][1])
+            try:
+                kv = fold(k)
+            except Unfoldable:
+                kv = None
+            if kv is not None:
+                ctx.ob(rid, "steps-by-two", kv == 2, "" if kv == 2 else "the walk steps by %s (expected 2: entries with the same side to move)" % kv, ctx.where(f, t["line"]), sample={"step": kv})
+                sub = list(leaves(recv))
+                reversed_ = any(x[0] == "call" and x[1].rsplit("::", 1)[-1] in ("rev", "rposition", "rfind", "next_back") for x in sub)
+                parity_fix = any(x[0] == "bin" and x[1] in ("BitAnd", "BitOr", "Rem", "Mul", "Div", "Shl", "Shr") for x in sub)
+                if not reversed_ and not parity_fix and kv == 2:
+                    ctx.ob(rid, "stride-anchored-at-the-newest-entry", False,
+                           "count_repetitions steps by two over a forward iteration of the window (%s): the stride is anchored at the window's oldest entry, whose distance from the current position is the half-move clock - with an odd clock the entries of the other side to move are compared and real repetitions are not counted (the walk must be anchored at start - 4: reverse the iteration or correct the lower bound's parity)" % show(recv)[:120],
+                           ctx.where(f, t["line"]))
+                    return
+        ctx.lost(rid, "count_repetitions without a loop: the walk over the history is written as an iterator chain")
+        return
     if len(be) != 1:
         ctx.lost(rid, "count_repetitions: exactly one loop (found %d back edges): the walk over the history is written in another idiom" % len(be))
         return
@@ -580,3 +606,63 @@ _run_before_r6 = run
 def run(ctx):
     _run_before_r6(ctx)
     r6_counter_walk(ctx)
+
+
+MAX_CLOCK = 150      # the property's quantifier: half-move clocks 0..150
+
+
+def r7_slots_not_shared_inside_the_window(ctx):
+    """a history kept as a ring must be longer than the longest look-back"""
+    rid = "C10.R7"
+    ctx.rule(rid, "if ZobristHistory addresses its slots modulo a capacity (a ring), the capacity exceeds the longest look-back of count_repetitions (the half-move clock, up to %d in the property's domain): otherwise the walk reaches the slot it started from and counts the current position as its own repetition" % MAX_CLOCK, floor=0)
+    prog = ctx.prog
+    seen = False
+    for k in sorted(prog.fns):
+        if not k.startswith(ZH) or prog.fns[k].get("test"):
+            continue
+        f = prog.fns[k]
+        ex = Exprs(f)
+        idx_trees = []
+        for bb in f["blocks"]:
+            if bb["cleanup"]:
+                continue
+            places = [s["dst"] for s in bb["stmts"] if s["dst"] is not None] + [s["rv"]["place"] for s in bb["stmts"] if "place" in s["rv"]]
+            places += [a["pl"] for s in bb["stmts"] for a in s["rv"].get("a", []) if a.get("k") in ("copy", "move")]
+            for pl in places:
+                for e in pl.get("p", []):
+                    if isinstance(e, dict) and "idx" in e:
+                        idx_trees.append((ex.local(e["idx"]), s_line(bb)))
+            t = bb["term"]
+            if t["k"] == "call" and (t["callee"].get("key") or "").rsplit("::", 1)[-1] in ("index", "index_mut", "get", "get_mut", "get_unchecked", "get_unchecked_mut") and len(t["args"]) == 2:
+                idx_trees.append((ex.operand(t["args"][1]), t["line"]))
+        for tr, line in idx_trees:
+            for x in leaves(tr):
+                if x[0] == "bin" and x[1] in ("Rem", "BitAnd"):
+                    try:
+                        c = fold(x[3])
+                    except Unfoldable:
+                        try:
+                            c = fold(x[2])
+                        except Unfoldable:
+                            continue
+                    m = c if x[1] == "Rem" else c + 1
+                    if m <= 2:
+                        continue
+                    seen = True
+                    ok = m > MAX_CLOCK
+                    ctx.ob(rid, "%s|ring-longer-than-the-window" % k.rsplit("::", 1)[-1], ok,
+                           "" if ok else "%s addresses the history modulo %d: with a half-move clock of %d or more the walk back from the current position reaches index start - %d, the same slot as start, and the position is counted as a repetition of itself (a second occurrence is scored as a threefold repetition)" % (f["display"], m, m, m),
+                           ctx.where(f, line), sample={"modulus": m})
+    return seen
+
+
+def s_line(bb):
+    return bb["stmts"][0]["line"] if bb["stmts"] else bb["term"].get("line")
+
+
+_run_before_r7 = run
+
+
+def run(ctx):
+    _run_before_r7(ctx)
+    r7_slots_not_shared_inside_the_window(ctx)
